@@ -26,6 +26,10 @@ def jobs_for(tier):
         jobs.append(('Workers', os.path.basename(path)[:-4], 'Complete'))
     jobs.append(('Pipeline', 'Pipeline_sab_loseboundary', 'JoinResult'))
     jobs.append(('Pipeline', 'Pipeline_sab_norestore', 'FlagRestored'))
+    # liveness under weak fairness: every call ends, every chunk is worked on, the flag is eventually switched back
+    jobs.append(('Pipeline', 'Pipeline_live', None))
+    jobs.append(('Pipeline', 'Pipeline_live_sab', 'temporal:FlagEventuallyRestored'))
+    jobs.append(('Session', 'Session_live', None))
     for path in sorted(glob.glob(os.path.join(config.SPEC, 'WorkersED_%s_*.cfg' % t))):
         jobs.append(('WorkersED', os.path.basename(path)[:-4], None))
     jobs.append(('WorkersED', 'WorkersED_sab_q2', 'Complete'))
@@ -83,7 +87,9 @@ def run(tier, seed):
             checks.append('%s: %d distinct states, %d generated, all invariants hold (%.0fs)' % (
                 cfg, res.distinct, res.generated, res.wall))
         else:
-            if not res.violation or ('Invariant %s is violated' % expect) not in res.violation:
+            needle = ('Temporal property %s was violated' % expect.split(':')[1]) if expect.startswith('temporal:') \
+                else ('Invariant %s is violated' % expect)
+            if not res.violation or needle not in res.violation:
                 raise runner.MachineryError('sabotaged configuration %s did not violate %s: the invariant is vacuous' % (cfg, expect))
             checks.append('%s: violates %s as intended (non-vacuity)' % (cfg, expect))
     # unbounded arithmetic lemmas (Apalache, linear integer arithmetic): Jaccard / Dice bounds for ALL sizes
